@@ -108,8 +108,26 @@ def stage_program(name, lang, stage):
     return pickle.loads(_STAGED[k])
 
 
-def h_roundtrip(eng, tier, lang, sym_draws, part):
+def c13_members(tier, part):
     names = members(tier)
+    if tier == 'quick' and part == 'mutation':
+        # mutation runs on generated programs cost ~1 s each: two generated members in the quick tier
+        names = [n for n in names if not n.startswith('generated/') or n in ('generated/java/seed1', 'generated/kotlin/seed1')]
+    return names
+
+
+def prebuild(tier, lang, part):
+    """staged programs are built once in the master (before the workers are forked)"""
+    for n in c13_members(tier, part):
+        for st in (0, 1, 2):
+            try:
+                stage_program(n, lang, st)
+            except Exception:       # noqa
+                pass
+
+
+def h_roundtrip(eng, tier, lang, sym_draws, part):
+    names = c13_members(tier, part)
     pname = names[int(eng.fresh_int(0, len(names) - 1, 'member'))]
     stage = int(eng.fresh_int(0, 2, 'stage'))
     try:
@@ -204,15 +222,15 @@ def jobs(tier):
     for lang in langs:
         out.append(Job('roundtrip-%s' % lang, h_roundtrip, dict(tier=tier, lang=lang, sym_draws=0, part='roundtrip'),
                        split_depth=2, functions=FUNCS, require_events=['roundtrip'], budget_s=2400,
-                       crosscheck_every=50, setup=lambda t=tier: members(t),
+                       crosscheck_every=50, setup=lambda t=tier, l=lang: prebuild(t, l, 'roundtrip'),
                        bounds='every family member (41 fixtures + %d generated programs per language) x stage in {generated, '
                               'erased, erased+overwritten}: translations in 4 languages, structure, second dump, type erasure on '
                               'original vs reloaded copy (mutations run as for language %s)' % (nseeds, lang), outside=OUT))
-        nd = 2 if tier == 'quick' else 3
+        nd = 1 if tier == 'quick' else 3
         out.append(Job('mutation-equivalence-%s' % lang, h_roundtrip, dict(tier=tier, lang=lang, sym_draws=nd, part='mutation'),
                        split_depth=3, functions=FUNCS, require_events=['roundtrip', 'overwritten'], budget_s=2400,
-                       crosscheck_every=200, setup=lambda t=tier: members(t),
-                       bounds='every family member x stage x every outcome of the first %d random draws of TypeOverwriting.transform '
+                       crosscheck_every=200, setup=lambda t=tier, l=lang: prebuild(t, l, 'mutation'),
+                       bounds='every family member (quick: fixtures + 2 generated programs) x stage x every outcome of the first %d random draws of TypeOverwriting.transform '
                               '(method, node, ...) recorded on the original and replayed on the reloaded copy' % nd, outside=OUT))
     return out
 
